@@ -287,6 +287,61 @@ def check_default(case):
     return info
 
 
+# ------------------------------------------------------------------ fine interval grids: the same candidate twice
+
+
+def fine_grid_cells(tier):
+    """Growth factors of 1.1-1.25 with max_interval_length >= n give a fine grid of candidate lengths in which a candidate that is
+    cut off by the end of the series coincides with one of a shorter length group: the candidate list then holds the same interval
+    twice (whether it does is counted, from the reported table). Data: seeded noise, a strong excursion and a weaker, shorter one
+    between it and the very end of the series - once the strong one is taken, only the short candidates at the end remain."""
+    settings = [(2, 1.2, 21), (2, 1.25, 23), (1, 1.15, 24), (2, 1.15, 25), (3, 1.1, 25), (1, 1.1, 26), (2, 1.1, 27), (3, 1.1, 28),
+                (1, 1.25, 27), (2, 1.2, 27), (1, 1.15, 28), (2, 1.25, 29)]
+    if tier != "quick":
+        settings += [(1, 1.1, 30), (2, 1.1, 31), (3, 1.15, 33), (2, 1.07, 34), (1, 1.2, 35), (3, 1.1, 36)]
+    i = 0
+    for msl, g, n in settings:
+        for gap_end in (1, 2):
+            for weak_len in (msl, msl + 1):
+                for scale in (1.0, 0.5):
+                    i += 1
+                    yield {"n": n, "seed": 9500 + i, "gap_end": gap_end, "weak_len": weak_len,
+                           "params": {"anomaly_score": {"cls": "L2Cost"}, "threshold_scale": scale, "level": 0.01, "min_segment_length": msl,
+                                      "max_interval_length": 1000, "growth_factor": g}}
+
+
+def check_fine_grid(case):
+    n = case["n"]
+    msl = case["params"]["min_segment_length"]
+    rng = np.random.Generator(np.random.PCG64(case["seed"]))
+    X = rng.standard_normal((n, 1)) * 0.3
+    # the candidate list does not depend on the data: read it from a first run on the noise and place the excursions by it
+    with sut("CircularBinarySegmentation.fit/predict (fine grid, noise)"):
+        det = K.build(K.detector_spec("CircularBinarySegmentation", case["params"])).fit(X)
+        det.predict(X)
+    pairs = list(zip(det.scores["interval_start"].tolist(), det.scores["interval_end"].tolist()))
+    twice = sorted({q for q in pairs if pairs.count(q) > 1 and q[1] == n and n - 1 - q[0] - max(1, msl - 1) >= msl and q[0] >= 5})
+    if twice:
+        # the weaker excursion fits strictly inside the duplicated candidate [s, n) only; the strong one ends where that candidate starts
+        s_ = twice[case["seed"] % len(twice)][0]
+        a2, b2 = s_ + max(1, msl - 1), n - 1
+        a1, b1 = s_ - 4, s_
+    else:
+        b2 = n - case["gap_end"]
+        a2 = b2 - case["weak_len"]
+        b1 = a2 - 1 - case["seed"] % 2
+        a1 = b1 - 3 - case["seed"] % 3
+    X[a1:b1, 0] += 9.0
+    X[a2:b2, 0] += 4.0 + (case["seed"] % 4)
+    info = check({"params": case["params"], "X": X, "scale2": 1.5, "n_train": None, "history": None})
+    with sut("CircularBinarySegmentation.fit/predict (fine grid)"):
+        y = K.build(K.detector_spec("CircularBinarySegmentation", case["params"])).fit(X).predict(X)
+    info["classes"] = list(info["classes"]) + (["weak_excursion_inside_a_duplicated_candidate"] if twice else ["no_suitable_duplicated_candidate"]) + \
+        [f"anomalies={min(len(y), 3)}"]
+    info["nontrivial"] = bool(twice) and len(y) >= 2
+    return info
+
+
 # ------------------------------------------------------------------ very many anomalies
 
 
@@ -319,6 +374,12 @@ def check_many(case):
 
 
 FACETS = [
+    Facet(name="fine_interval_grid", kind="enumerate", enumerate=fine_grid_cells, check=check_fine_grid, exhaustive=True,
+          rule=("CircularBinarySegmentation (L2 local score) with growth factors 1.07-1.25 and max_interval_length 1000 on series of 21-36 samples, "
+                "settings whose candidate list holds the same interval twice (a candidate cut off by the end of the series coincides with one of a "
+                "shorter length group); seeded noise with a strong excursion and a weaker, shorter one between it and the end of the series; same "
+                "reference as circular_binseg; non-trivial = the reported table holds a duplicated candidate and >= 2 anomalies are reported"),
+          shards_quick=8, shards_thorough=8, max_samples=2),
     Facet(name="circular_binseg", check=check, strategy=cases,
           rule=("n in [2msl,30], msl from the scorer's minimum size, max_interval_length in [2msl, 2msl+14] or 1000, growth factor "
                 "in (1,2], threshold scales {0,.2,.5,1,2,None}; local scores from L2 / GaussianVar / GaussianCov / user L1 costs on structured "
